@@ -100,8 +100,85 @@ func plainSam(q string) *sam.SAM {
 	return &sam.SAM{Qname: q, Flag: 0, Rname: "r", Pos: 1, Mapq: 2, Cigar: "*", Rnext: "x", Pnext: 3, Tlen: 4, Seq: "AC", Qual: "II", Tags: map[string]any{}}
 }
 
+// nwkTokens splits writer output into tokens (quoted names are one token).
+func nwkTokens(t []byte) [][]byte {
+	var toks [][]byte
+	for i := 0; i < len(t); {
+		switch b := t[i]; {
+		case b == '\'':
+			j := i + 1
+			for j < len(t) {
+				if t[j] == '\'' {
+					if j+1 < len(t) && t[j+1] == '\'' {
+						j += 2
+						continue
+					}
+					break
+				}
+				j++
+			}
+			toks = append(toks, t[i:j+1])
+			i = j + 1
+		case strings.IndexByte("(),:;", b) >= 0:
+			toks = append(toks, t[i:i+1])
+			i++
+		default:
+			j := i
+			for j < len(t) && strings.IndexByte("(),:;'", t[j]) < 0 {
+				j++
+			}
+			toks = append(toks, t[i:j])
+			i = j
+		}
+	}
+	return toks
+}
+
+// nwkPretty: the trees written by the writer, re-spaced: whitespace (line breaks included) between
+// ANY two tokens, as in hand-edited multi-line tree files.
+func (c *Ctx) nwkPretty(ts []*newick.Node, lfOnly bool) wfInput {
+	in := nwkInput(ts, "whitespace and line breaks between tokens")
+	var b bytes.Buffer
+	ws := []string{"", "", "\n", " ", "\t", "\n  ", " \n", "\n\n"}
+	if !lfOnly {
+		ws = append(ws, "\r\n", "\r\n\t")
+	}
+	for _, tok := range nwkTokens(bytes.ReplaceAll(in.data, []byte("\n"), nil)) {
+		b.Write(tok)
+		b.WriteString(ws[c.rng.Intn(len(ws))])
+	}
+	in.data = b.Bytes()
+	return in
+}
+
 func (c *Ctx) specialInputs(name string) []wfInput {
 	var out []wfInput
+	if name == "newick" {
+		for i := 0; i < 12; i++ {
+			var ts []*newick.Node
+			for k := 0; k < 1+c.rng.Intn(3); k++ {
+				t := c.randTree(2 + c.rng.Intn(8))
+				clean := true
+				var walk func(n *newick.Node)
+				walk = func(n *newick.Node) {
+					if strings.ContainsAny(n.Name, "\n\r") || n.Distance != n.Distance {
+						clean = false
+					}
+					for _, ch := range n.Children {
+						walk(ch)
+					}
+				}
+				walk(t)
+				if clean {
+					ts = append(ts, t)
+				}
+			}
+			if len(ts) > 0 {
+				out = append(out, c.nwkPretty(ts, true))
+			}
+		}
+		out = append(out, c.nwkPretty([]*newick.Node{tree1("r", tree1("A"), tree1("B")), tree1("x", tree1("y", tree1("z")))}, true))
+	}
 	dna := func(n int) []byte { return c.bytesFrom([]byte("ACGTacgt"), n) }
 	// (1) magic numbers as the first bytes of the first field, alone and followed by more records
 	for _, m := range magics {
@@ -487,7 +564,53 @@ func flatBufferRecords(c *Ctx, what string) {
 // ---------------------------------------------------------------------------
 // C02: qualities of every other length
 
+// paddedQuals: a quality (or sequence) line that is too long by exactly its trailing blanks / NULs,
+// or too short, padded or not: the lengths differ, so the record must be rejected.
+func paddedQuals(c *Ctx) {
+	good := &fastq.Fastq{Name: []byte("g"), Sequence: []byte("ACGT"), Quals: []byte("IIII")}
+	pads := []string{" ", "\t", "  ", " \t", "\x00", "\v", "\f", "\t\t\t"}
+	for n := 1; n <= 5; n++ {
+		for _, pad := range pads {
+			for variant := 0; variant < 4; variant++ {
+				seq := string(c.bytesFrom([]byte("ACGT"), n))
+				q := strings.Repeat("I", n)
+				switch variant {
+				case 0: // qualities too long by their trailing padding
+					q += pad
+				case 1: // a byte inserted ahead of legitimate trailing padding
+					if n < 2 {
+						continue
+					}
+					q = q[:n-len(pad)%n] + "X" + pad
+					if len(q) == n {
+						continue
+					}
+				case 2: // sequence padded, qualities not
+					seq += pad
+				case 3: // leading padding
+					q = pad + q
+				}
+				if len(q) == len(seq) {
+					continue
+				}
+				txt := fastqWrite([]*fastq.Fastq{good})
+				txt = append(txt, []byte("@bad\n"+seq+"\n+\n"+q+"\n")...)
+				txt = append(txt, fastqWrite([]*fastq.Fastq{good})...)
+				items, st := decFastq(bytes.NewReader(txt), 0, 16)
+				got := itemsStr(items, st)
+				oracle := ""
+				if got != fqS(good)+"|E" {
+					oracle = fmt.Sprintf("a record whose sequence line has %d and whose quality line has %d bytes (blank padding) is not rejected: %s", len(seq), len(q), trunc(got, 80))
+				}
+				c.add(Case{Op: "fq.dec e " + hx(txt), Impl: got, Kind: "quals-padding", Nontrivial: true, Oracle: oracle,
+					Note: fmt.Sprintf("fastq record seq %q quals %q between two good records", seq, q)})
+			}
+		}
+	}
+}
+
 func qualsLengthGrid(c *Ctx) {
+	paddedQuals(c)
 	check := func(n, q int) {
 		if n == q {
 			return
@@ -1155,8 +1278,75 @@ func longStops(c *Ctx) {
 	}
 }
 
+// deepBushyTrees (C19): ladders / caterpillars hundreds of levels deep with branching at every level,
+// "deep and bushy" random trees, and leaves whose Children slice is empty but not nil.
+func deepBushyTrees(c *Ctx) {
+	mk := func(name int) *newick.Node { return &newick.Node{Name: fmt.Sprint(name)} }
+	for _, depth := range []int{127, 128, 129, 255, 256, 257, 300, 400, 1000} {
+		for _, shape := range []string{"leaf-then-spine", "spine-then-leaf", "two-leaves-around-spine"} {
+			id := 0
+			root := mk(id)
+			cur := root
+			for d := 0; d < depth; d++ {
+				id++
+				next := mk(id)
+				id++
+				leaf := mk(id)
+				switch shape {
+				case "leaf-then-spine":
+					cur.Children = []*newick.Node{leaf, next}
+				case "spine-then-leaf":
+					cur.Children = []*newick.Node{next, leaf}
+				default:
+					id++
+					cur.Children = []*newick.Node{leaf, next, mk(id)}
+				}
+				cur = next
+			}
+			cur.Children = []*newick.Node{mk(id + 1), mk(id + 2)}
+			travCase(c, root, fmt.Sprintf("ladder-%s-%d", shape, depth), depth <= 300, false)
+		}
+	}
+	for i := 0; i < c.n(3); i++ {
+		n := 1500 + c.rng.Intn(1000)
+		nodes := make([]*newick.Node, n)
+		for j := range nodes {
+			nodes[j] = mk(j)
+			if j > 0 {
+				p := j - 1 - c.rng.Intn(min(3, j)) // attach to one of the last three nodes: depth ~ n/2
+				nodes[p].Children = append(nodes[p].Children, nodes[j])
+			}
+		}
+		travCase(c, nodes[0], "deep-bushy", false, false)
+	}
+	// leaves with an empty, non-nil child list (pruned trees, make([]*Node, 0, k))
+	for i := 0; i < c.n(20); i++ {
+		n := 2 + c.rng.Intn(12)
+		nodes := make([]*newick.Node, n)
+		for j := range nodes {
+			nodes[j] = mk(j)
+			if j > 0 {
+				p := c.rng.Intn(j)
+				nodes[p].Children = append(nodes[p].Children, nodes[j])
+			}
+		}
+		for _, nd := range nodes {
+			if len(nd.Children) == 0 {
+				switch c.rng.Intn(3) {
+				case 0:
+					nd.Children = []*newick.Node{}
+				case 1:
+					nd.Children = make([]*newick.Node, 0, 4)
+				}
+			}
+		}
+		travCase(c, nodes[0], "empty-nonnil-children", false, true)
+	}
+}
+
 // wideTrees (C19): one node with very many children.
 func wideTrees(c *Ctx) {
+	deepBushyTrees(c)
 	for _, w := range []int{255, 256, 257, 65535, 65536, 65537, 70000} {
 		root := &newick.Node{Name: "root"}
 		hub := &newick.Node{Name: "hub"}
